@@ -220,6 +220,9 @@ fn old_entries(c: &Chain) -> usize {
 #[derive(Clone)]
 pub struct Legacy {
     pub entries: Vec<usize>,
+    /// also seed states in which the users of the legacy entries filed new-format requests in the same batch before
+    /// the owner paused (after a code upgrade the hub is live until the owner pauses it)
+    pub with_v2: bool,
 }
 
 impl Scenario for Legacy {
@@ -239,6 +242,11 @@ impl Scenario for Legacy {
             for (a, b, amt) in list.iter().take(*n) {
                 let st = &mut c.contracts.get_mut(HUB).unwrap().1;
                 st.0.insert(old_key(a, *b), serde_json::to_vec(&amt.to_string()).unwrap());
+            }
+            if self.with_v2 && *n > 0 {
+                let mut c2 = c.clone();
+                run_prefix(&mut c2, &[unbond(ALICE, BSEI, 10), unbond(BOB, STSEI, 5), exec("pause".into(), OWNER, HUB, pause_msg(json!(true)), &[])]);
+                out.push((format!("{} legacy entries next to new requests of the same users, paused", n), c2, ()));
             }
             run_prefix(&mut c, &[exec("pause".into(), OWNER, HUB, pause_msg(json!(true)), &[])]);
             out.push((format!("{} legacy entries, paused", n), c, ()));
